@@ -153,6 +153,262 @@ def check_history(ctx, table, h, mo):
         prev = pr
 
 
+# ------------------------------------------------------------------------------------------------------------
+# (d) commands BETWEEN the 150 mark of a transfer and the arrival of its data connection
+D_USERS = [
+    {"login": "guest", "password": None, "home": "/pub"},
+    {"login": "admin", "password": "adminpw", "home": "/adm"},
+    {"login": "bob", "password": None, "home": "/bob"},
+]
+D_TREE = {
+    "pub": {"me": b"guest-data", "readme": b"public", "sub": {"n": b"1"}},
+    "adm": {"me": b"admin-data", "payroll": b"SECRET", "id_rsa": b"key", "sub": {"s": b"2"}},
+    "bob": {"me": b"bob-data", "notes": b"bob's", "sub": {}},
+}
+D_LOGINS = {
+    "guest": [("USER", "guest")],
+    "admin": [("USER", "admin"), ("PASS", "adminpw")],
+    "bob": [("USER", "bob")],
+    "admin-no-pass": [("USER", "admin")],                      # 331 only: NOT logged in
+    "admin-bad-pass": [("USER", "admin"), ("PASS", "nope")],   # 530: NOT logged in
+    "dropped": [("USER", "guest"), ("USER", "admin")],         # a completed login discarded by USER again
+    "nobody": [],
+}
+D_XFERS = [("LIST", "", None), ("MLSD", "", None), ("LIST", "sub", None), ("RETR", "me", None), ("STOR", "up", b"PAYLOAD"), ("APPE", "me", b"+more")]
+D_BETWEEN = [
+    [],
+    [("USER", "admin")],                       # 331: the previous login is gone, nobody is logged in
+    [("USER", "admin"), ("PASS", "nope")],     # 530
+    [("USER", "admin"), ("PASS", "adminpw")],  # a complete re-login as somebody else
+    [("USER", "bob")],                         # 230 at once: somebody else, another home
+    [("USER", "guest")],
+    [("USER", "nobody")],                      # 530: unknown
+    [("CWD", "sub")],
+    [("USER", "admin"), ("PWD", "")],
+]
+D_PAYLOAD_VERBS = ("STOR", "APPE")
+
+
+def d_resolve(cwd, arg):
+    parts = [] if arg.startswith("/") else [p for p in cwd.split("/") if p]
+    for seg in arg.split("/"):
+        if seg in ("", "."):
+            continue
+        if seg == "..":
+            parts = parts[:-1]
+        else:
+            parts.append(seg)
+    return parts
+
+
+def d_get(tree, parts):
+    t = tree
+    for p in parts:
+        if not isinstance(t, dict) or p not in t:
+            return None
+        t = t[p]
+    return t
+
+
+def run_deferred(login, xfer, between, user_manager=None):
+    """one session: <login>; PASV; <xfer>; <between ...>; THEN the data connection; PWD.  The spying backend log is
+    cut into phases.  An exception inside the (mutated) implementation is part of the observation."""
+    log = []
+    ob = {"login": [], "between": [], "probes": []}
+
+    async def main(net):
+        server = ftpsim.make_server(D_USERS, D_TREE, "memory", None, wait_future_timeout=5)
+        server.path_io_factory.factory = spy_factory(log)
+        await server.start("127.0.0.1", ftpsim.PORT)
+        s = ftpsim.Session(net, server)
+        await s.start()
+        raw = s.raw
+        for v, a in login:
+            ob["login"].append(simnet.final_codes(await raw.send(f"{v} {a}".rstrip())))
+        ob["probe_login"] = s.probe()
+        pl = await raw.send("PASV")
+        ob["pasv"] = simnet.final_codes(pl)
+        port = ftpsim.parse_passive(pl)
+        ob["port"] = port
+        ob["calls_before"] = list(log)
+        mark = len(log)
+        verb, arg, payload = xfer
+        lines = await raw.send(f"{verb} {arg}".rstrip())
+        ob["codes"] = simnet.final_codes(lines)
+        ob["calls_request"] = log[mark:]
+        for v, a in between:
+            mark = len(log)
+            bl = await raw.send(f"{v} {a}".rstrip())
+            ob["between"].append({"codes": simnet.final_codes(bl), "calls": log[mark:], "probe": s.probe()})
+        mark = len(log)
+        data = b""
+        if port is not None:
+            try:
+                r, w = await net.open_connection("127.0.0.1", port)
+                if verb in D_PAYLOAD_VERBS and payload is not None:
+                    w.write(payload)
+                    w.close()
+                await net.settle()
+                data = bytes(r._buffer)
+                if not w.transport.is_closing():
+                    w.close()
+            except (ConnectionRefusedError, OSError) as e:
+                ob["data_error"] = repr(e)
+        await asyncio.sleep(6)  # let a worker still waiting for a data connection time out (425)
+        ob["after"] = simnet.final_codes(await raw.drain_replies())
+        ob["data"] = data
+        ob["calls_serving"] = log[mark:]
+        ob["probe_end"] = s.probe()
+        pw = await raw.send("PWD")
+        ob["pwd_codes"] = simnet.final_codes(pw)
+        ob["pwd"] = pw[-1][4:].strip().strip('"') if ob["pwd_codes"] == ["257"] else None
+        ob["ended"] = raw.eof
+        ob["tree"] = ftpsim.final_tree(server, "memory")
+        await server.close()
+
+    try:
+        simnet.run(main)
+    except Exception as e:  # noqa: BLE001 - observation; the search goes on
+        ob["error"] = repr(e)
+    return ob
+
+
+def d_rule(cmds, st=(None, False)):
+    for v, a in cmds:
+        st = login_oracle(D_USERS, st, v, a)
+    return st
+
+
+def deferred_oracle(login, xfer, between, ob):
+    """the property for one such session, stated independently -> list of (kind, detail)"""
+    if "error" in ob:
+        return [("driver-error", ob["error"])]
+    bad = []
+    verb, arg, payload = xfer
+    st0 = d_rule(login)
+    tree0 = ftpsim.canon_tree(D_TREE)
+    served = bool(ob["data"]) or bool(ob["calls_serving"]) or ob["tree"] != tree0
+    if not st0[1]:
+        # not logged in when the transfer command is sent: nothing at all may happen
+        if any(c[:1] in "123" for c in ob["codes"] + ob["pasv"]):
+            bad.append(("command-succeeded-before-login", f"{verb} {arg!r} / PASV after {login} answered {ob['codes']} / {ob['pasv']}"))
+        if ob["calls_before"] or ob["calls_request"] or ob["calls_serving"] or any(b["calls"] for b in ob["between"]) and not any(d_rule(login + between[: i + 1])[1] for i in range(len(between))):
+            bad.append(("backend-touched-before-login", f"backend calls without a completed login: {(ob['calls_before'] + ob['calls_request'] + ob['calls_serving'])[:4]}"))
+        if ob["data"]:
+            bad.append(("served-before-login", f"{len(ob['data'])} bytes on a data connection of a session that never logged in"))
+        return bad
+    me = D_USERS[st0[0]]
+    if ob["codes"] != ["150"]:
+        return bad  # refused for another reason: nothing to say here (C05 compares the codes with the model)
+    target = d_resolve(me["home"], arg)
+    tpath = "/" + "/".join(target)
+    old = d_get(D_TREE, target)
+    # login state after every in-between command follows the rule; a command sent while not logged in touches nothing
+    st = st0
+    for i, ((v, a), b) in enumerate(zip(between, ob["between"])):
+        was_logged = st[1]
+        st = login_oracle(D_USERS, st, v, a)
+        pr = b["probe"]
+        if pr is not None:
+            want = (D_USERS[st[0]]["login"] if st[0] is not None else None, st[1])
+            got = (pr["user"] if pr["has_user"] else None, pr["logged"])
+            if got != want:
+                bad.append(("login-state-differs-from-rule", f"after {between[: i + 1]} (transfer pending): rule {want}, server {got}"))
+        if not was_logged and v.lower() not in ("user", "pass") and b["calls"]:
+            bad.append(("backend-touched-before-login", f"{v} {a!r} while nobody is logged in (transfer pending): {b['calls'][:3]}"))
+    # what is served is the object the ISSUING login was entitled to (RFC 959: a transfer in progress completes under the
+    # old access control parameters) - never an object resolved under the login / directory of the moment of serving
+    touched = [p for n, p in ob["calls_serving"] if n in ("_open", "list")]
+    if any(p != tpath for p in touched):
+        bad.append(("served-under-another-login", f"{verb} {arg!r} was accepted for {me['login']} as {tpath!r}; after {between} the worker handed {touched} to the backend"))
+    foreign = [p for n, p in ob["calls_serving"] if p and not (p == tpath or p.startswith(tpath.rstrip("/") + "/"))]
+    if foreign and not any(k == "served-under-another-login" for k, _ in bad):
+        bad.append(("served-under-another-login", f"{verb} {arg!r} accepted for {me['login']} as {tpath!r}; after {between} the backend was asked about {foreign[:4]}"))
+    done = any(c in ("226", "200") for c in ob["after"])
+    if verb == "RETR" and done and isinstance(old, bytes) and ob["data"] != old:
+        bad.append(("served-under-another-login", f"RETR {arg!r} accepted for {me['login']} ({tpath}): after {between} the data connection delivered {ob['data']!r}, that file holds {old!r}"))
+    if verb in ("LIST", "MLSD") and done and isinstance(old, dict):
+        try:
+            names = sorted(n for n, _, _ in ftpsim.parse_listing(ob["data"], verb.lower()))
+        except Exception:  # noqa: BLE001
+            names = ["<unparsable>"]
+        if names != sorted(old):
+            bad.append(("served-under-another-login", f"{verb} {arg!r} accepted for {me['login']} ({tpath}): after {between} the listing shows {names}, that directory holds {sorted(old)}"))
+    if verb in D_PAYLOAD_VERBS:
+        if done:
+            content = payload if verb == "STOR" or not isinstance(old, bytes) else old + payload
+            want = json_tree_put(D_TREE, target, content)
+            if ob["tree"] != ftpsim.canon_tree(want):
+                bad.append(("served-under-another-login", f"{verb} {arg!r} accepted for {me['login']} as {tpath!r}: after {between} and the upload the tree is not the initial one with {tpath!r} written"))
+        elif ob["tree"] != tree0:
+            bad.append(("served-under-another-login", f"{verb} {arg!r} did not complete ({ob['after']}) but the tree changed"))
+    elif ob["tree"] != tree0:
+        bad.append(("tree-changed-by-reading-transfer", f"{verb} {arg!r}: the tree changed"))
+    # at the end the session is what the rule says; a dropped login stays dropped
+    pr = ob["probe_end"]
+    if pr is not None:
+        want = (D_USERS[st[0]]["login"] if st[0] is not None else None, st[1])
+        got = (pr["user"] if pr["has_user"] else None, pr["logged"])
+        if got != want:
+            bad.append(("login-state-differs-from-rule", f"after the pending transfer was served: rule {want}, server {got}"))
+        if not st[1] and ob["pwd_codes"] == ["257"]:
+            bad.append(("command-succeeded-before-login", f"PWD answered 257 after {login + between}"))
+    return bad
+
+
+def json_tree_put(tree, parts, value):
+    import copy
+
+    t = copy.deepcopy(tree)
+    node = t
+    for p in parts[:-1]:
+        node = node[p]
+    node[parts[-1]] = value
+    return t
+
+
+def deferred_cases(rng, thorough):
+    cases = []
+    for login in ("guest", "admin", "bob"):
+        for xfer in D_XFERS:
+            for between in D_BETWEEN:
+                cases.append((login, xfer, between))
+    for login in ("admin-no-pass", "admin-bad-pass", "dropped", "nobody"):
+        for xfer in D_XFERS:
+            cases.append((login, xfer, []))
+            cases.append((login, xfer, [("USER", "admin")]))
+    if thorough:
+        return cases
+    # quick: guest x everything; the other logins see every between and every transfer once (round-robin)
+    return [c for i, c in enumerate(cases) if c[0] in ("guest", "admin-no-pass", "dropped") or i % 4 == 0]
+
+
+def stream_deferred(ctx):
+    cases = deferred_cases(ctx.rng, ctx.tier == "thorough")
+    n150 = 0
+    for login, xfer, between in cases:
+        ctx.case(("deferred", login, xfer[:2], repr(between)))
+        ctx.traces_impl += 1
+        ob = run_deferred(D_LOGINS[login], xfer, between)
+        n150 += ob.get("codes") == ["150"]
+        for kind, detail in deferred_oracle(D_LOGINS[login], xfer, between, ob):
+            report(ctx, f"property oracle (command between 150 and the data connection): {detail}",
+                   {"key": f"c03-deferred-{kind}-{xfer[0].lower()}", "deferred": True, "login": login,
+                    "xfer": [xfer[0], xfer[1], xfer[2].decode("latin-1") if xfer[2] is not None else None], "between": [list(b) for b in between]})
+    ctx.count("deferred_sessions", len(cases))
+    ctx.count("deferred_150_then_between", n150)
+
+
+_reported = {}
+
+
+def report(ctx, what, payload, per_key=3):
+    k = payload["key"]
+    _reported[k] = _reported.get(k, 0) + 1
+    if _reported[k] <= per_key:
+        ctx.violation(what, payload)
+
+
 def correspondence(ctx, budget=None):
     rng = ctx.rng
     thorough = ctx.tier == "thorough"
